@@ -276,6 +276,79 @@ def interleavings(progs, peer_win, cap, rng):
     return leaves, True
 
 
+def dispatch_facts():
+    """From the AST of Transport.run: the statement after `chan = self._channels.get(chanid)` is an `if` whose test is
+    exactly `chan is not None` and whose body calls `self._channel_handler_table[ptype](chan, m)` — i.e. every
+    message for a registered channel reaches its handler, whatever state the channel is in."""
+    import ast
+    import inspect
+    import textwrap
+    from paramiko.transport import Transport
+    tree = ast.parse(textwrap.dedent(inspect.getsource(Transport.run)))
+    guard, calls = "?", False
+    for node in ast.walk(tree):
+        for field in ("body", "orelse", "finalbody"):
+            block = getattr(node, field, None)
+            if not isinstance(block, list):
+                continue
+            for i, st in enumerate(block[:-1]):
+                if isinstance(st, ast.Assign) and ast.unparse(st.value) == "self._channels.get(chanid)":
+                    nxt = block[i + 1]
+                    if isinstance(nxt, ast.If):
+                        guard = ast.unparse(nxt.test)
+                        calls = any(ast.unparse(x) == "self._channel_handler_table[ptype](chan, m)"
+                                    for b in nxt.body for x in ast.walk(b) if isinstance(x, ast.Call))
+    return guard, calls
+
+
+def real_dispatch_release(ctx, rng):
+    """Both CLOSEs exchanged through the REAL Transport.run() dispatch of two connected Transports, judged on the
+    side that closed FIRST while the application still holds the Channel object (the map is weak): the channel
+    must leave Transport._channels on both sides."""
+    from pv import lib_net
+    failed = False
+    for first, with_data in (("client", False), ("server", False), ("client", True), ("server", True)):
+        if failed:
+            break       # one concrete failing exchange is enough (each further one costs a full wait)
+        tc = ts = None
+        try:
+            tc, ts, _sc, _ss, _srv = lib_net.make_pair()
+            cchan = tc.open_session(timeout=60)
+            schan = ts.accept(60)
+            cid, sid = cchan.get_id(), schan.get_id()
+            if with_data:
+                # stream traffic still in flight towards the side that closes first
+                (schan if first == "client" else cchan).send(b"late data " * 50)
+            closer, other = (cchan, schan) if first == "client" else (schan, cchan)
+            closer.close()
+            # the other side answers the CLOSE by itself (_handle_close); hold both objects strongly meanwhile
+            gone_c = lib_net.wait_until(lambda: tc._channels.get(cid) is None, 25)
+            gone_s = lib_net.wait_until(lambda: ts._channels.get(sid) is None, 25 if gone_c else 2)
+            case = {"scenario": "real run() dispatch: %s closes first%s, application keeps the Channel object"
+                                % (first, ", data in flight" if with_data else ""),
+                    "client_channel_released": bool(gone_c), "server_channel_released": bool(gone_s),
+                    "closer_closed": closer.closed, "other_closed": other.closed,
+                    "transports_active": [tc.active, ts.active]}
+            ctx.case(("real-dispatch", first, with_data), True)
+            ctx.dist("real-dispatch-close-exchanges")
+            if tc.active and ts.active and not (gone_c and gone_s):
+                side = "client" if not gone_c else "server"
+                ctx.fail("channel-not-released-after-both-closes:real-dispatch:%s"
+                         % ("closed-first-side" if side == first else "answering-side"), case,
+                         "the %s's channel is still in Transport._channels 25 s after both CLOSEs were sent "
+                         "(closed=%r on the closing side)" % (side, closer.closed))
+                failed = True
+        except Exception as e:  # noqa — a set-up problem of this side scenario must never fail the check
+            ctx.dist("real-dispatch-scenario-skipped:" + type(e).__name__)
+        finally:
+            for t in (tc, ts):
+                try:
+                    if t is not None:
+                        t.close()
+                except Exception:  # noqa
+                    pass
+
+
 def run(ctx):
     import logging
     logging.getLogger("paramiko").addHandler(logging.NullHandler())
@@ -294,9 +367,19 @@ def run(ctx):
     ctx.write_generated("ChanLock", lib_chanlock.lean_tables_for(chmod.Channel))
     ctx.extra["decision_sites"] = ["%s:%s:%s" % (x["caller"], x["target"], "locked" if x["eff"] else "UNLOCKED")
                                    for x in sites if x["caller"] != "__init__"]
+    guard, calls = dispatch_facts()
+    ctx.write_generated("C22", (
+        "/- GENERATED from the AST of paramiko/transport.py (Transport.run, channel dispatch) by pv/props/c22.py — do not edit. -/\n"
+        "namespace PV.Generated.C22\n"
+        "/-- the test of the `if` that follows `chan = self._channels.get(chanid)` -/\n"
+        "def dispatchGuard : String := \"%s\"\n"
+        "/-- … and its body calls `self._channel_handler_table[ptype](chan, m)` -/\n"
+        "def dispatchCallsHandler : Bool := %s\n"
+        "end PV.Generated.C22\n" % (guard.replace('"', "'"), "true" if calls else "false")))
     ctx.build(extra_modules=["PV.Model.ChanDriver"])
     rng = ctx.rng
     batches = []
+    real_dispatch_release(ctx, rng)
 
     # ---- the Lean witness, replayed on the real code
     rig = lib_chan.Rig(32768, 32768, 32768, 2)
